@@ -282,3 +282,91 @@ Proof.
   assert (snake_class b = true) as Sb by (rewrite Forall_forall in H2; apply H2; exact Hb).
   pose proof (script_field_injective_on_snake_class b a Sb H1 E). subst. contradiction.
 Qed.
+
+(* ---------- the variant-collision check of get_methods: distinct variants OR a diagnostic naming both methods ---------- *)
+Lemma find_first_some : forall f seen n, find_first f seen = Some n -> In (n, f) seen.
+Proof.
+  induction seen as [|[m g] r IH]; intros n H; simpl in *; [discriminate|].
+  destruct (chars_eqb g f) eqn:E.
+  - apply chars_eqb_eq in E. inversion H; subst. left. reflexivity.
+  - right. apply IH. exact H.
+Qed.
+
+Lemma find_first_none : forall f seen, find_first f seen = None -> ~ In f (map snd seen).
+Proof.
+  induction seen as [|[m g] r IH]; intros H; simpl in *; [tauto|].
+  destruct (chars_eqb g f) eqn:E; [discriminate|]. intros [K|K].
+  - subst. rewrite chars_eqb_refl in E. discriminate.
+  - exact (IH H K).
+Qed.
+
+Lemma NoDup_snoc : forall (A : Type) (l : list A) x, NoDup l -> ~ In x l -> NoDup (l ++ [x]).
+Proof.
+  induction l as [|a l IH]; intros x N H; simpl.
+  - constructor; [tauto|constructor].
+  - inversion N; subst. constructor.
+    + rewrite in_app_iff. simpl. intros [K|[K|[]]]; [contradiction|]. subst. apply H. left. reflexivity.
+    + apply IH; auto. intro K. apply H. right. exact K.
+Qed.
+
+Lemma check_variants_spec : forall names seen,
+  Forall (fun n => legal_input n = true) names -> NoDup (map snd seen) ->
+  (forall n f, In (n, f) seen -> script_field n = Ok f) ->
+  match check_variants seen names with
+  | VOk vs => NoDup vs /\ map Ok vs = (map Ok (map snd seen) ++ map script_field names)%list
+  | VDiag a b => exists l1 l2, names = (l1 ++ b :: l2)%list /\ (In a (map fst seen) \/ In a l1) /\ script_field a = script_field b
+  | VPanic => False
+  end.
+Proof.
+  induction names as [|a r IH]; intros seen F N Hs; simpl.
+  - rewrite app_nil_r. split; auto.
+  - inversion F; subst. destruct (script_field_total a H1) as [o [E _]]. rewrite E.
+    destruct (find_first o seen) as [c|] eqn:FF.
+    + exists [], r. apply find_first_some in FF. repeat split.
+      * left. apply in_map_iff. exists (c, o). split; auto.
+      * rewrite (Hs c o FF). symmetry. exact E.
+    + assert (NoDup (map snd (seen ++ [(a, o)]))) as N'.
+      { rewrite map_app. simpl. apply NoDup_snoc; auto. apply find_first_none. exact FF. }
+      assert (forall n f, In (n, f) (seen ++ [(a, o)]) -> script_field n = Ok f) as Hs'.
+      { intros n f K. apply in_app_or in K. destruct K as [K|[K|[]]]; [auto|]. inversion K; subst. exact E. }
+      specialize (IH (seen ++ [(a, o)]) H2 N' Hs').
+      destruct (check_variants (seen ++ [(a, o)]) r) as [vs|x y|].
+      * destruct IH as [ND M]. split; [exact ND|]. rewrite M, !map_app. simpl. rewrite <- app_assoc. reflexivity.
+      * destruct IH as [l1 [l2 [Er [K S]]]]. exists (a :: l1), l2. subst r. repeat split; auto.
+        rewrite map_app in K. simpl in K. destruct K as [K|K].
+        -- apply in_app_or in K. destruct K as [K|[K|[]]]; [left; exact K|]. right. left. exact K.
+        -- right. right. exact K.
+      * exact IH.
+Qed.
+
+(* on legal method names: a duplicate-free list of variants (one per method, in order), or a diagnostic naming two methods of
+   the list, the first strictly before the second, that are mangled to the same variant; never a panic *)
+Theorem script_variants_nodup_or_diag : forall names, Forall (fun n => legal_input n = true) names ->
+  match script_variants names with
+  | VOk vs => NoDup vs /\ map Ok vs = map script_field names
+  | VDiag a b => exists l1 l2, names = (l1 ++ b :: l2)%list /\ In a l1 /\ script_field a = script_field b
+  | VPanic => False
+  end.
+Proof.
+  intros names F. pose proof (check_variants_spec names [] F (NoDup_nil _) (fun n f K => match K with end)) as S.
+  unfold script_variants. destruct (check_variants [] names) as [vs|a b|]; simpl in S; auto.
+  destruct S as [l1 [l2 [E [[[]|K] Q]]]]. exists l1, l2. auto.
+Qed.
+
+(* ... and the diagnostic is never raised against distinct lower_snake_case names *)
+Theorem script_variants_ok_on_snake_class : forall names,
+  Forall (fun n => legal_input n = true) names -> Forall (fun n => snake_class n = true) names -> NoDup names ->
+  exists vs, script_variants names = VOk vs /\ NoDup vs.
+Proof.
+  intros names L S N. pose proof (script_variants_nodup_or_diag names L) as H.
+  destruct (script_variants names) as [vs|a b|]; [exists vs; tauto| |contradiction].
+  exfalso. destruct H as [l1 [l2 [E [Ia Q]]]]. subst names. rewrite Forall_forall in S.
+  assert (a = b).
+  { apply script_field_injective_on_snake_class; auto; apply S; rewrite in_app_iff; [left; exact Ia | right; left; reflexivity]. }
+  subst a. apply NoDup_remove_2 in N. apply N. rewrite in_app_iff. left. exact Ia.
+Qed.
+
+Example script_variants_diag_ex : script_variants_s ["get"; "a_b"; "put"; "a_B"]%string = inr ("a_b", "a_B")%string.
+Proof. reflexivity. Qed.
+Example script_variants_ok_ex : script_variants_s ["get"; "a_b"; "a__b"]%string = inl (Some ["Get"; "AB"; "A_B"]%string).
+Proof. reflexivity. Qed.
